@@ -79,6 +79,24 @@ func flipBytes(b []byte, last bool) []byte {
 var persistentFlags = []types.BlockFlag{types.IdentityUpdate, types.FlipLotteryStarted, types.ShortSessionStarted, types.LongSessionStarted,
 	types.AfterLongSessionStarted, types.ValidationFinished, types.Snapshot, types.NewGenesis}
 
+type namedTime struct {
+	name string
+	t    int64
+}
+
+// extremeTimes: timestamps far outside the window, incl. the points where seconds-to-duration
+// arithmetic (x 1e9) leaves the int64 range.
+func extremeTimes(parent int64) []namedTime {
+	const nsWrap = 9223372037 // smallest d with d*1e9 > MaxInt64
+	return []namedTime{
+		{"0", 0}, {"1", 1}, {"-1", -1}, {"MinInt64", -1 << 63}, {"MaxInt64", 1<<63 - 1},
+		{"parent-2^33", parent - 1<<33}, {"parent-2^40", parent - 1<<40}, {"parent-2^62", parent - 1<<62},
+		{"parent-nsWrap", parent - nsWrap}, {"parent-nsWrap+1", parent - nsWrap + 1}, {"parent-nsWrap-1", parent - nsWrap - 1},
+		{"parent-2*nsWrap", parent - 2*nsWrap}, {"parent-3*nsWrap", parent - 3*nsWrap},
+		{"parent+nsWrap", parent + nsWrap}, {"parent+2^40", parent + 1<<40},
+	}
+}
+
 func operators(b *types.Block, other *types.Block, parentTime int64, now int64, extra []*types.Transaction) []tamper {
 	var out []tamper
 	if b.IsEmpty() {
@@ -97,6 +115,10 @@ func operators(b *types.Block, other *types.Block, parentTime int64, now int64, 
 		mk("Time+1", func(h *types.EmptyBlockHeader) { h.Time++ })
 		mk("Time-1", func(h *types.EmptyBlockHeader) { h.Time-- })
 		mk("Time=parent", func(h *types.EmptyBlockHeader) { h.Time = parentTime })
+		for _, x := range extremeTimes(parentTime) {
+			x := x
+			mk("Time="+x.name, func(h *types.EmptyBlockHeader) { h.Time = x.t })
+		}
 		for _, f := range persistentFlags {
 			f := f
 			mk(fmt.Sprintf("Flags^%d", f), func(h *types.EmptyBlockHeader) { h.Flags ^= f })
@@ -121,6 +143,10 @@ func operators(b *types.Block, other *types.Block, parentTime int64, now int64, 
 	mk("Time=parent+MinBlockDelay-1", func(_ *types.Block, h *types.ProposedHeader) { h.Time = parentTime + 9 })
 	mk("Time=parent", func(_ *types.Block, h *types.ProposedHeader) { h.Time = parentTime })
 	mk("Time=now+MaxFutureBlockOffset+1", func(_ *types.Block, h *types.ProposedHeader) { h.Time = now + 121 })
+	for _, x := range extremeTimes(parentTime) {
+		x := x
+		mk("Time="+x.name, func(_ *types.Block, h *types.ProposedHeader) { h.Time = x.t })
+	}
 	mk("TxHash.flip-first", func(_ *types.Block, h *types.ProposedHeader) { h.TxHash = flipHash(h.TxHash, false) })
 	mk("TxHash.flip-last", func(_ *types.Block, h *types.ProposedHeader) { h.TxHash = flipHash(h.TxHash, true) })
 	mk("TxHash.zero", func(_ *types.Block, h *types.ProposedHeader) {
@@ -401,7 +427,7 @@ func main() {
 		chainmc.ReplayFile(run, m)
 		return
 	}
-	run.SetBudget(6*60e9, 40*60e9)
+	run.SetBudget(6*60e9, 20*60e9)
 	depth := 2
 	if run.Thorough() {
 		depth = 3
